@@ -54,5 +54,7 @@ def run(P, R, tier):
         idx.check_label_consistency(P, R, f)
         idx.check_label_indexing(P, R, f, contract_0_k=(f.module.name == "factor_analysis"))
     R.floor("IDX label loops", nloops, 5)
+    from ..engines import proto as _proto
+    R.floor("PARTITION.by-class definitions", _proto.check_class_split(P, R), 2)
     for k in SET_LOOP_FUNCS:
         P.func(k)  # anchors
